@@ -1,5 +1,4 @@
 """C10 registry entry (see lib/registry.py for the field reference)."""
-import os
 
 _PKG = "./internal/pkg/postprocessor"
 _VERDICT = "|^TestVerif_C10_ZzVerdict$"
@@ -21,34 +20,46 @@ _TARGETS = [
 ]
 _FACETS = ["C10/" + t[0] for t in _TARGETS]
 
-# development aid: VERIF_KNOWN=<file> in the caller's environment reaches the test processes (the driver itself only
-# reads the committed known_findings.json)
-_ENV = {"VERIF_KNOWN": os.environ["VERIF_KNOWN"]} if os.environ.get("VERIF_KNOWN") else {}
-
 # rapid mutation units: one process group per cost class so that the quick tier is bounded by the slowest target
 # (unit, tests, facets, checks per shard (quick, thorough), shards (quick, thorough))
 _GROUPS = [
     ("c10-mut-chain", ["Chain"], ["C10/chain"], (10000, 40000), (2, 16)),
-    ("c10-mut-html", ["HTML", "Script"], ["C10/html", "C10/script"], (10000, 40000), (2, 16)),
+    ("c10-mut-html", ["HTML"], ["C10/html"], (10000, 40000), (2, 16)),
+    ("c10-mut-script", ["Script"], ["C10/script"], (10000, 40000), (2, 16)),
     ("c10-mut-pdf", ["PDF"], ["C10/pdf"], (5000, 15000), (4, 16)),
-    ("c10-mut-doc", ["JSON", "XML", "S3", "M3U8"], ["C10/json", "C10/xml", "C10/s3", "C10/m3u8"], (10000, 40000), (2, 16)),
-    ("c10-mut-site", ["LinkHeader", "Reddit", "Truthsocial", "INA"], ["C10/linkheader", "C10/reddit", "C10/truthsocial", "C10/ina"], (10000, 40000), (2, 16)),
+    ("c10-mut-doc", ["JSON", "XML"], ["C10/json", "C10/xml"], (10000, 40000), (2, 16)),
+    ("c10-mut-list", ["S3", "M3U8", "LinkHeader"], ["C10/s3", "C10/m3u8", "C10/linkheader"], (10000, 40000), (2, 16)),
+    ("c10-mut-site", ["Reddit", "Truthsocial", "INA"], ["C10/reddit", "C10/truthsocial", "C10/ina"], (10000, 40000), (2, 16)),
 ]
 
 _units = [
     # (a) committed regression corpus + hostile constants, plain test
     {"name": "c10-corpus", "pkg": _PKG, "run": "^TestVerif_C10_(Corpus|CodecSelfTest)$" + _VERDICT, "kind": "plain",
-     "facets": [], "shards": (1, 1), "timeout": (900, 1800), "env": dict(_ENV)},
+     "facets": [], "shards": (1, 1), "timeout": (900, 1800)},
 ]
 for _name, _tests, _facets, _checks, _shards in _GROUPS:
     _units.append({"name": _name, "pkg": _PKG, "run": "^TestVerif_C10_Mut_(%s)$" % "|".join(_tests) + _VERDICT, "kind": "rapid",
                    "facets": _facets, "checks": _checks, "shards": _shards, "shrinktime": (30, 60),
-                   "timeout": (1500, 3000), "env": dict(_ENV)})
+                   "timeout": (1500, 3000)})
 # (c) native coverage-guided fuzzing, thorough tier only (fuzztime quick = 0: the unit is then a plain run of the seeds)
 for _t, _n, _f in _TARGETS:
     _units.append({"name": "c10-fuzz-" + _t, "pkg": _PKG, "run": "^%s$" % _f, "kind": "fuzz", "fuzz_target": _f,
-                   "facets": ["C10/" + _t], "fuzztime": (0, 90), "fuzz_workers": 2, "shards": (0, 1),
-                   "timeout": (600, 900), "env": dict(_ENV)})
+                   "facets": ["C10/" + _t], "fuzz_case": {"target": _t}, "fuzztime": (0, 90), "fuzz_workers": 2, "shards": (0, 1),
+                   "timeout": (600, 900)})
+
+# strict sub-checks of the open known findings (run only while the finding is listed as open)
+for _key, _timeout in [
+    ("C10-extractor.PDF-pdfcpu-stackoverflow-pagetree-cycle", 300),
+    ("C10-extractor.PDF-pdfcpu-hang-nested-dict", 300),
+    ("C10-extractor.PDF-pdfcpu-oom-huge-length", 300),
+    ("C10-extractor.PDF-pdfcpu", 300),
+    ("C10-extractor.M3U8-m3u8-memory-blowup", 600),
+    ("C10-extractor.M3U8-m3u8", 300),
+    ("C10-extractor.HTMLAssets-regexp-hang-nested-scripts", 600),
+]:
+    _tn = "".join(ch if ch.isalnum() else "_" for ch in _key[len("C10-"):])
+    _units.append({"name": "c10-kf-" + _tn.lower(), "pkg": _PKG, "run": "^TestVerifKF_C10_%s$" % _tn, "kind": "kf", "finding": _key,
+                   "facets": [], "shards": (1, 1), "timeout": (_timeout, _timeout)})
 
 PROP = {
     "id": "C10",
